@@ -73,6 +73,11 @@ def corruptions(rng, wf):
     w = clone()
     del w['steps'][ids[0]]['fields']['input']['kids']['id']
     out.append(('missing-required', w))
+    # a stop condition on a step whose plugin has no cancel signal handler
+    w = copy.deepcopy(wf)
+    w['steps'][ids[-1]]['pstep'] = 'nowork'
+    w['steps'][ids[-1]]['fields']['stop_if'] = ref('input.flag') if len(ids) < 2 else ref('steps.%s.outputs.success.tok' % ids[0])
+    out.append(('stop-condition-without-cancel-handler', w))
     w = clone()
     w['steps'][ids[0]]['fields']['input']['kids']['zzz'] = lit(1)
     out.append(('unknown-field', w))
